@@ -68,6 +68,7 @@ def gen_spec(rng: np.random.Generator, tier: str, hermitian: bool = True, **forc
         case=[int(x) for x in rng.integers(0, 2**31, size=3)],
         near_deg=bool(rng.random() < 0.3),
         symbolic=bool(rng.random() < 0.35),
+        sparse_kind=str(rng.choice(["array", "array", "matrix"])),
         offset=int(rng.choice([0, 0, 0, 8192])),
     )
     spec.update(force)
@@ -83,6 +84,8 @@ def normalise(spec: dict, thorough: bool = False) -> dict:
     if spec["extra_orders"]:
         spec["container"] = "dict"
     max_total = {1: 4, 2: 3, 3: 2}[n_par] + (1 if thorough and n_par < 3 else 0)
+    if n_par == 3 and spec["vtype"] != "sympy" and N <= (7 if thorough else 5):
+        max_total = 3  # three parameters up to total order 3 (20 multi-orders) on small problems
     if spec["vtype"] == "sympy":
         max_total = min(max_total, 3 if N <= 6 else 2)
         if spec["design"] == "vectors" and N > 5:
@@ -105,7 +108,7 @@ def normalise(spec: dict, thorough: bool = False) -> dict:
 
 def signature(spec: dict) -> list:
     return [
-        spec["hermitian"], spec["nblocks"], sorted(spec["sizes"]), spec["n_par"], spec["vtype"], spec["complex"], bool(spec.get("offset")), bool(spec.get("near_deg")),
+        spec["hermitian"], spec["nblocks"], sorted(spec["sizes"]), spec["n_par"], spec["vtype"] + ("-spmatrix" if spec["vtype"] == "sparse" and spec.get("sparse_kind") == "matrix" else ""), spec["complex"], bool(spec.get("offset")), bool(spec.get("near_deg")),
         spec["sel"], spec["design"], spec["container"], spec["extra_orders"], spec["degenerate"], spec["max_total"],
     ]
 
@@ -362,6 +365,13 @@ def _cayley_unitary(rng, N, cplx, exact):
     return Q if cplx else Q.real
 
 
+SPARSE_KIND = {"kind": "array"}  # set per problem by _encode: scipy sparse *_array or legacy *_matrix (spmatrix)
+
+
+def _sp(A):
+    return sparse.csr_matrix(A) if SPARSE_KIND["kind"] == "matrix" else sparse.csr_array(A)
+
+
 def _value(M_f, M_x, vtype, cplx):
     """Encode a full matrix in the requested value type."""
     if vtype == "sympy":
@@ -369,7 +379,7 @@ def _value(M_f, M_x, vtype, cplx):
     A = M_f if (cplx or np.iscomplexobj(M_f) and np.any(M_f.imag)) else M_f.real
     A = np.array(A)
     if vtype == "sparse":
-        return sparse.csr_array(A)
+        return _sp(A)
     return A
 
 
@@ -408,6 +418,7 @@ def _encode(p: Problem, rng):
     off = p.offsets()
     kwargs = dict(hermitian=p.hermitian)
     terms_enc = {}
+    SPARSE_KIND["kind"] = spec.get("sparse_kind", "array")
     if design == "indices" and nb >= 1:
         # interleave the blocks, preserving the order inside each block
         labels = np.array(p.block_of)
@@ -459,7 +470,7 @@ def _encode(p: Problem, rng):
                 M = Q @ p.terms_f[o] @ Qi
                 if not cplx:
                     M = M.real
-                terms_enc[o] = sparse.csr_array(M) if vtype == "sparse" else np.array(M)
+                terms_enc[o] = _sp(M) if vtype == "sparse" else np.array(M)
         vecs = []
         for b in range(nb):
             cols = list(range(off[b], off[b + 1]))
